@@ -123,7 +123,7 @@ type Site struct {
 	// inside [0, len(LoopBound))
 	LoopBound *Term
 	Inst      *Instance
-	Node *Node
+	Node      *Node
 }
 
 // locateSites finds, for every recorded site, the node that evaluates it.
